@@ -49,3 +49,42 @@ def transfer_estimates(ctx, k, act, d, nv, problems):
                 _check_node(node, "blocks[0]", k, problems)
                 n += 1
     ctx.setdefault("counters", {})["estimate_nodes"] = ctx.get("counters", {}).get("estimate_nodes", 0) + n
+
+
+def all_handles(ctx, k, act, d, nv, problems):
+    """C11: after an in-place action (and at the end of the program) every live collection must compute to its current
+    denotation (ctx['cur'], maintained from ArrayProgram's env), and the user's source arrays must be unchanged."""
+    import warnings
+
+    import numpy as np
+
+    from .replay import INPLACE, env_to_np, same_values
+
+    prog = ctx["prog"]
+    if act["a"] == "Source":
+        ctx.setdefault("src_copies", []).append((d, np.array(nv, copy=True)))
+        return
+    if act["a"] not in INPLACE and k != len(prog) - 1:
+        return
+    n = 0
+    for h, coll in enumerate(ctx["da_env"]):
+        if coll is None:
+            continue
+        exp = ctx["cur"][h]
+        if exp["kind"] == "err":
+            continue
+        want = env_to_np(exp)
+        try:
+            with warnings.catch_warnings():
+                warnings.simplefilter("ignore")
+                got = np.asarray(coll.compute(scheduler="sync"))
+        except Exception as ex:
+            problems.append(("handle-raised-after-inplace" if act["a"] in INPLACE else "raised",
+                             f"action {k} {act['a']}: handle {h + 1}: {type(ex).__name__}: {str(ex)[:160]}"))
+            continue
+        n += 1
+        if tuple(got.shape) != tuple(exp["shape"]) or not same_values(got, want, exp["kind"]):
+            which = "target" if h + 1 == act.get("out") and act["a"] in INPLACE else "other"
+            problems.append((f"{which}-collection-value-differs-after-inplace" if act["a"] in INPLACE else "values",
+                             f"action {k} {act['a']}: handle {h + 1} computes {got.tolist()!r}, expected {want.tolist()!r}"))
+    ctx.setdefault("counters", {})["handles_checked"] = ctx.get("counters", {}).get("handles_checked", 0) + n
